@@ -431,8 +431,11 @@ func genOutbox(r *rng, ty string, k int) *scenario {
 		if r.chance(1, 8) {
 			delete(body, "target")
 		}
-		if r.chance(1, 3) { // duplicates inside the stored collection
+		if r.chance(2, 3) { // duplicates inside the stored collections
 			w.Store[local+"/cols/1"]["items"] = []interface{}{actorID(remote, "carol"), actorID(remote, "dave"), actorID(remote, "carol")}
+			if r.chance(1, 2) {
+				w.Store[local+"/cols/2"]["orderedItems"] = []interface{}{actorID(remote, "dave"), actorID(remote, "dave"), actorID(remote, "carol"), actorID(remote, "dave"), actorID(remote, "zed")}
+			}
 		}
 	case "Like":
 		body = jmap{"@context": asCtx, "type": "Like", "actor": alice}
@@ -953,4 +956,149 @@ func runSeq(r *rng, k int, em *emitter) (scs []*scenario, ress []runResult) {
 		}
 	}
 	return
+}
+
+// ---- C16: focused client activities against stored values with random member sets -----------------------------
+
+func genEffects(r *rng, ty string, k int) *scenario {
+	w := baseWorld(r)
+	cfg := defaultCfg()
+	if r.chance(1, 4) {
+		cfg.Federating = false
+	}
+	if r.chance(1, 6) {
+		cfg.SocWrapped = []string{ty}
+	}
+	alice := actorID(local, "alice")
+	members := []string{"content", "summary", "name", "mediaType", "published", "updated", "url", "attributedTo", "inReplyTo", "to"}
+	val := func(m string, gen int) interface{} {
+		switch m {
+		case "published", "updated":
+			return fmt.Sprintf("20%02d-01-02T03:04:05Z", 10+gen)
+		case "url", "attributedTo", "inReplyTo", "to":
+			return fmt.Sprintf("%s/ref/%s/%d", remote, m, gen)
+		}
+		return fmt.Sprintf("%s-%d-%d", m, k, gen)
+	}
+	people := []string{actorID(remote, "carol"), actorID(remote, "dave"), actorID(remote, "zed"), actorID(remote, "erin")}
+	var body jmap
+	switch ty {
+	case "Update":
+		body = jmap{"@context": asCtx, "type": "Update", "actor": alice}
+		var objs []interface{}
+		for i := 0; i < 1+r.intn(3); i++ {
+			id := fmt.Sprintf("%s/notes/%d", local, 1+r.intn(3))
+			stored := jmap{"@context": asCtx, "type": pick(r, []string{"Note", "Article", "Page"}), "id": id}
+			for _, m := range members {
+				if r.chance(1, 2) {
+					stored[m] = val(m, 0)
+				}
+			}
+			w.Store[id] = stored
+			o := jmap{"type": stored["type"], "id": id}
+			for _, m := range members {
+				switch r.intn(5) {
+				case 0:
+					o[m] = val(m, 1+i) // overlapping or new
+				case 1:
+					o[m] = nil // explicit null: remove
+				}
+			}
+			objs = append(objs, o)
+		}
+		body["object"] = one(objs)
+		if r.chance(1, 3) {
+			body["summary"] = nil
+		}
+	case "Delete":
+		body = jmap{"@context": asCtx, "type": "Delete", "actor": alice}
+		var objs []interface{}
+		for i := 0; i < 1+r.intn(3); i++ {
+			id := fmt.Sprintf("%s/notes/%d", local, 1+r.intn(3))
+			stored := jmap{"@context": asCtx, "type": pick(r, []string{"Note", "Article", "Image", "Person"}), "id": id, "content": "x"}
+			if r.chance(1, 2) {
+				stored["published"] = val("published", i)
+			}
+			if r.chance(1, 2) {
+				stored["updated"] = val("updated", i+3)
+			}
+			w.Store[id] = stored
+			if r.chance(1, 3) {
+				objs = append(objs, jmap{"type": "Note", "id": id})
+			} else {
+				objs = append(objs, id)
+			}
+		}
+		body["object"] = one(objs)
+	case "Add", "Remove":
+		body = jmap{"@context": asCtx, "type": ty, "actor": alice}
+		// targets: owned unordered / owned ordered / not owned / owned non-collection; heavy duplicates
+		for i, cty := range []string{"Collection", "OrderedCollection", "CollectionPage", "OrderedCollectionPage"} {
+			id := fmt.Sprintf("%s/cols/%d", local, i+1)
+			var items []interface{}
+			for j := 0; j < r.intn(6); j++ {
+				items = append(items, pick(r, people))
+			}
+			c := jmap{"@context": asCtx, "type": cty, "id": id}
+			if len(items) > 0 {
+				if strings.HasPrefix(cty, "Ordered") {
+					c["orderedItems"] = one(items)
+				} else {
+					c["items"] = one(items)
+				}
+			}
+			w.Store[id] = c
+			w.Owned[id] = r.chance(3, 4)
+		}
+		var objs, targets []interface{}
+		for i := 0; i < 1+r.intn(3); i++ {
+			objs = append(objs, iriOrEmbedded(r, pick(r, people)))
+		}
+		for i := 0; i < 1+r.intn(3); i++ {
+			targets = append(targets, pick(r, []string{local + "/cols/1", local + "/cols/2", local + "/cols/3", local + "/cols/4", remote + "/notes/9", local + "/notes/1"}))
+		}
+		body["object"] = one(objs)
+		body["target"] = one(targets)
+	case "Like":
+		body = jmap{"@context": asCtx, "type": "Like", "actor": pick(r, []string{alice, alice, actorID(local, "bob")})}
+		var objs []interface{}
+		for i := 0; i < 1+r.intn(3); i++ {
+			objs = append(objs, iriOrEmbedded(r, fmt.Sprintf("%s/notes/%d", remote, 10+r.intn(3))))
+		}
+		body["object"] = one(objs)
+		if r.chance(1, 2) {
+			var old []interface{}
+			for j := 0; j < 1+r.intn(3); j++ {
+				old = append(old, fmt.Sprintf("%s/notes/%d", remote, 10+r.intn(5)))
+			}
+			w.Liked[alice]["items"] = one(old)
+		}
+	case "Block":
+		body = jmap{"@context": asCtx, "type": "Block", "actor": alice}
+		var objs []interface{}
+		for i := 0; i < 1+r.intn(3); i++ {
+			objs = append(objs, iriOrEmbedded(r, pick(r, people)))
+		}
+		body["object"] = one(objs)
+	}
+	addressing(r, body, w)
+	switch r.intn(10) {
+	case 0:
+		delete(body, "object")
+	case 1:
+		body["object"] = []interface{}{}
+	case 2:
+		if ty == "Add" || ty == "Remove" {
+			delete(body, "target")
+		}
+	}
+	sc := outboxScenario("effects:"+ty, w, cfg, body)
+	sc.Tags[ty] = true
+	if r.chance(1, 4) && ty != "Update" {
+		sc.Entry = "send"
+		sc.Send = body
+		sc.Body = nil
+		sc.Cfg.Federating = true
+	}
+	return sc
 }
